@@ -127,7 +127,8 @@ Qed.
 
 (* the session readSession builds from the marshalled form of [lv] *)
 Definition reread (lv : live) : live :=
-  {| lv_core := set_pushed (lv_core lv) None; lv_batch_trigger := lv_batch_trigger lv; lv_tr := transient_after_read |}.
+  {| lv_core := set_pushed (lv_core lv) None; lv_batch_trigger := lv_batch_trigger lv;
+     lv_tr := transient_after_read (s_trigger (lv_core lv)) |}.
 
 Lemma restore_persist_known : forall lv,
   parents_precede (s_runs (lv_core lv)) -> restore (persist lv) = Restored (reread lv).
@@ -203,8 +204,8 @@ Definition tr_ok (t : trigger) (tr : transient) : Prop := t_parent tr = true -> 
 Lemma tr_ok_start : forall t b, tr_ok t (transient_at_start t b).
 Proof. intros t b H. exact H. Qed.
 
-Lemma tr_ok_read : forall t, tr_ok t transient_after_read.
-Proof. intros t H. discriminate. Qed.
+Lemma tr_ok_read : forall t, tr_ok t (transient_after_read t).
+Proof. intros t H. exact H. Qed.
 
 Lemma prepare_parent : forall t tr, tr_ok t tr -> t_parent (prepare_for_sprint t tr) = is_flow_action t.
 Proof.
@@ -621,7 +622,7 @@ Example ex_reread_rejects_forward_parent :
                                                 {| r_flow := 2%N; r_parent := None; r_status := RWaiting; r_exited := false;
                                                    r_path := []; r_events := []; r_results := [] |} ];
                                     s_input := None; s_pushed := None |};
-                      lv_batch_trigger := false; lv_tr := transient_after_read |})
+                      lv_batch_trigger := false; lv_tr := transient_after_read TManual |})
   = RestoreError 0.
 Proof. vm_compute. reflexivity. Qed.
 
@@ -650,8 +651,8 @@ Lemma per_call_and_exempt_members :
   names_with is_exempt session_classes = [].
 Proof. vm_compute. repeat split; reflexivity. Qed.
 
-(* a session started by a flow_action trigger: parentRun is loaded at start, nil after a re-read, loaded again by
-   prepareForSprint before the resumed sprint reads it *)
+(* a session started by a flow_action trigger: parentRun is loaded at start and again when the session is read
+   (readSession calls prepareForSprint since goflow f4c75dd), so the resumed sprint reads it on both paths *)
 Example ex_flow_action_parent :
   match start ex_assets TFlowAction 1%N with
   | ROk x =>
@@ -659,7 +660,7 @@ Example ex_flow_action_parent :
       t_parent (lv_tr lv) = true /\
       match restore (persist lv) with
       | Restored lv' =>
-          t_parent (lv_tr lv') = false /\
+          t_parent (lv_tr lv') = true /\
           option_map t_parent (context_in_resume ex_assets (lv_core lv') (lv_tr lv') (RMsg [120%N])) = Some true /\
           option_map t_parent (context_in_resume ex_assets (lv_core lv) (lv_tr lv) (RMsg [120%N])) = Some true
       | RestoreError _ => False
@@ -676,3 +677,36 @@ Example ex_rejected_between_restarts :
   /\ map v_context (firstn 1 (skipn 1 (run_history_v ex_assets [84%N] TManual 1%N true (never [RTimeout; RMsg [121%N]])))) = [None]
   /\ length (run_history_v ex_assets [84%N] TManual 1%N true (never [RTimeout; RMsg [121%N]])) = 3%nat.
 Proof. vm_compute. repeat split; reflexivity. Qed.
+
+(* since readSession loads the trigger's parent run (goflow f4c75dd), a re-read session has the same parentRun flag as
+   the session that was written, not only from the next call on *)
+Lemma reachable_parent_exact : forall a tmo lv,
+  reachable a tmo lv -> t_parent (lv_tr lv) = is_flow_action (s_trigger (lv_core lv)).
+Proof.
+  intros a tmo lv H. induction H as [t f batch x E | lv r lv' H IH E | lv lv' H IH E].
+  - cbn [lv_core lv_tr transient_at_start t_parent]. rewrite (start_post_trigger _ _ _ _ E). reflexivity.
+  - destruct (reachable_ok _ _ _ H) as [Hp _].
+    unfold live_resume in E. cbn [fst snd] in E.
+    assert (forall s', s_trigger s' = s_trigger (lv_core lv) ->
+              t_parent (transient_in_resume a (lv_core lv) (lv_tr lv) r) = is_flow_action (s_trigger s')) as Hgen.
+    { intros s' Hs. rewrite Hs. unfold transient_in_resume, prepare_for_sprint.
+      destruct (resume_applies a (lv_core lv) r); cbn [t_parent]; rewrite IH; destruct (is_flow_action _); reflexivity. }
+    destruct (resume_session a (lv_core lv) r tmo) as [code|[x|x| |]] eqn:R; cbn [after_call] in E; try discriminate;
+    inversion E; subst lv'; cbn [lv_core lv_tr].
+    + apply Hgen. reflexivity.
+    + apply Hgen. exact (resume_post_trigger _ _ _ _ _ Hp R).
+  - destruct (reachable_ok _ _ _ H) as [Hp _]. destruct (post_inv_persistable _ Hp) as [Hpu Hpp].
+    rewrite (restore_persist_known _ Hpp) in E. inversion E. subst lv'. unfold reread. cbn [lv_core lv_tr].
+    destruct (lv_core lv) as [st ty tg fl rs inp pu]. reflexivity.
+Qed.
+
+Lemma reread_keeps_parent : forall a tmo lv lv',
+  reachable a tmo lv -> restore (persist lv) = Restored lv' -> t_parent (lv_tr lv') = t_parent (lv_tr lv).
+Proof.
+  intros a tmo lv lv' H E.
+  rewrite (reachable_parent_exact _ _ _ H).
+  rewrite (reachable_parent_exact a tmo lv' (reach_reread a tmo lv lv' H E)).
+  destruct (reachable_ok _ _ _ H) as [Hp _]. destruct (post_inv_persistable _ Hp) as [Hpu Hpp].
+  rewrite (restore_persist_known _ Hpp) in E. inversion E. unfold reread. cbn [lv_core].
+  destruct (lv_core lv) as [st ty tg fl rs inp pu]. reflexivity.
+Qed.
